@@ -212,6 +212,9 @@ func (c *curve) encodePoint(x, y *mod.Int) []byte {
 // hence Diffie-Hellman exchange can be done without subgroup checking
 // without exposing more than the least-significant bits of the scalar.
 func (c *curve) decodePoint(bb []byte, x, y *mod.Int) error {
+	if len(bb) != c.PointLen() {
+		return errors.New("invalid elliptic curve point: wrong encoding length")
+	}
 
 	// Convert from little-endian
 	b := make([]byte, len(bb))
@@ -224,6 +227,9 @@ func (c *curve) decodePoint(bb []byte, x, y *mod.Int) error {
 	// Extract the y-coordinate
 	y.M = c.P.ToCompatibleMod()
 	y.V.SetBytes(b)
+	if y.V.Cmp(&c.P) >= 0 {
+		return errors.New("invalid elliptic curve point: y-coordinate out of range")
+	}
 
 	// Compute the corresponding x-coordinate
 	if !c.solveForX(x, y) {
